@@ -741,8 +741,22 @@ func (l *Local) factoryAllocWorker(ctx context.Context) {
 			l.status = statusInUse
 		} else {
 			eniID := l.eni.ID
+			// never ask for more than the interface has room for: addresses that are being
+			// disposed (e.g. returned together with an error by an earlier call) still count
+			// against the limit until they are unassigned
 			v4Count := min(l.batchSize, l.allocatingV4.Len())
 			v6Count := min(l.batchSize, l.allocatingV6.Len())
+			if l.cap > 0 {
+				v4Count = min(v4Count, l.cap-len(l.ipv4))
+				v6Count = min(v6Count, l.cap-len(l.ipv6))
+			}
+
+			if v4Count <= 0 && v6Count <= 0 {
+				// let the dispose worker make room; it wakes us when it has
+				l.cond.Broadcast()
+				l.cond.Wait()
+				continue
+			}
 
 			if v4Count > 0 {
 				l.cond.L.Unlock()
@@ -958,6 +972,7 @@ func (l *Local) factoryDisposeWorker(ctx context.Context) {
 
 			if err == nil {
 				l.ipv4.Delete(toDelete4...)
+				l.cond.Broadcast()
 			}
 		}
 
@@ -968,6 +983,7 @@ func (l *Local) factoryDisposeWorker(ctx context.Context) {
 
 			if err == nil {
 				l.ipv6.Delete(toDelete6...)
+				l.cond.Broadcast()
 			}
 		}
 	}
